@@ -425,16 +425,18 @@ open PromVerif.Model.Values in
     So counters, summaries and histogram cells sum, over all identities dead or alive, everything ever incremented
     (`worker_sums_partial` below makes the sum explicit); `all` gauges show each identity's own last value; min/max/sum/
     mostrecent range over the identities' own values; live modes only over identities not marked dead since they wrote.
-    Remaining hypotheses (`_partial`): `hu` — at every point the acting worker UPDATES only through the youngest value object on a
-    (prefix, key) (stale objects left by `remove()`/`clear()` are fine; the real code loses updates when an older object
-    is updated too: `C09.two_objects_lose_updates`); `GoodPS.no_pid_label` (known finding F24);
+    Remaining hypotheses (`_partial`): `hu` — every INCREMENT goes through a FRESH value object (`wFresh`: nothing else has written
+    its entry since it last read or wrote it; all objects are fresh after an identity change and after construction; an
+    update through one object makes the others on its key stale) — this covers dropped children after `remove()`/`clear()`
+    and a kept old handle used again after an identity change; the real code loses updates when two objects on one key
+    are incremented alternately inside one identity epoch: `C09.two_objects_lose_updates`; `GoodPS.no_pid_label` (known finding F24);
     `GoodPS.consistent` — one type and gauge mode per metric name; identities free of `_`; `hfmt` — the bound formatter is
     injective on parsed bounds (C13: `Props.C13Injective.go_injective_texts` via `fmt_injective_of_repr`).  Simultaneously running workers are represented by
     listing each worker's calls contiguously: they have distinct identities, hence touch disjoint files
     (`C09.writes_only_own_files`) and commute — this commutation is argued, not proved. -/
 theorem collect_workers_partial (vo : VOps V) (bo : BOps B) [DecidableEq B] (PS : List Params) (hPS : GoodPS bo PS)
     (p0 : Str) (hp0 : '_' ∉ p0) (evs : List (Ev V)) (hev : evsIdOK evs) (hkn : ∀ e ∈ evs, evKnown PS e)
-    (hu : WUniq vo (St.init p0) evs)
+    (hu : wFresh vo (St.init p0) (fun _ => true) evs = true)
     (hfmt : ∀ t t' b b', bo.parse t = some b → bo.parse t' = some b' → bo.fmt b = bo.fmt b' → b = b') :
     let D := (wrun vo (St.init p0) evs).disk
     ∃ out, merge vo bo (listing D) = .ok out ∧
@@ -466,7 +468,8 @@ theorem collect_workers_partial (vo : VOps V) (bo : BOps B) [DecidableEq B] (PS 
   · intro c hc
     obtain ⟨q, hq, e1, e2, e3, e4, e5⟩ := contrib_char PS hPS.good D hdisk c hc
     refine ⟨q, hq, e1, e2, e3, e4, ?_⟩
-    have := wrun_cell vo (filePrefix q) (mmapKey q) c.pid e4 evs (St.init p0) (inv_init vo p0) ⟨hp0, hp0⟩ hev hu
+    have := wrun_cell_fresh vo (filePrefix q) (mmapKey q) c.pid e4 evs (St.init p0) _ (bound_init p0) (freshInv_init vo p0 _)
+      ⟨hp0, hp0⟩ hev hu
     have hcv : cellVal vo (wrun vo (St.init p0) evs).disk (fileName (filePrefix q) c.pid) (mmapKey q) = (c.value, c.ts) := by
       unfold cellVal
       rw [← e3]
@@ -485,7 +488,7 @@ open PromVerif.Model.Values in
 theorem worker_sums_partial (vo : VOps V) (bo : BOps B) (hcomm : ∀ a b, vo.add a b = vo.add b a)
     (hassoc : ∀ a b c, vo.add (vo.add a b) c = vo.add a (vo.add b c)) (hzero : ∀ a, vo.add vo.zero a = a)
     (PS : List Params) (hPS : GoodPS bo PS) (p0 : Str) (hp0 : '_' ∉ p0) (evs : List (Ev V)) (hev : evsIdOK evs)
-    (hkn : ∀ e ∈ evs, evKnown PS e) (hu : WUniq vo (St.init p0) evs)
+    (hkn : ∀ e ∈ evs, evKnown PS e) (hu : wFresh vo (St.init p0) (fun _ => true) evs = true)
     (q : Params) (hq : q ∈ PS) (hng : q.typ ≠ gaugeType)
     (sel : Key → Bool) (hK : sel (mmapKey q) = true)
     (hsel : ∀ q' ∈ PS, sel (mmapKey q') = true → mmapKey q' = mmapKey q)
@@ -532,7 +535,8 @@ theorem worker_sums_partial (vo : VOps V) (bo : BOps B) (hcomm : ∀ a b, vo.add
         rw [← hpp]; unfold filePrefix; rw [hty, if_neg hng]
       rw [hn, hpre0] at hnc ⊢
       have hp' : pid ∉ pids := fun h => hnc (List.mem_map.mpr ⟨pid, h, rfl⟩)
-      rw [wrun_cell vo q.typ (mmapKey q) pid hpid evs (St.init p0) (inv_init vo p0) ⟨hp0, hp0⟩ hev hu,
+      rw [wrun_cell_fresh vo q.typ (mmapKey q) pid hpid evs (St.init p0) _ (bound_init p0) (freshInv_init vo p0 _)
+          ⟨hp0, hp0⟩ hev hu,
         nonlive_prefix q.typ hgq.typ pid pid hpid hpid, foldl_wOwn_nonlive]
       show ((wUpds (wLog vo q.typ (mmapKey q) p0 p0 [] evs)).foldl (ownStep vo pid) _).1 = vo.zero
       rw [foldl_ownStep_foreign vo pid _ pids hp' hinc]
@@ -550,7 +554,7 @@ theorem collected_sum_is_all_increments_partial (vo : VOps V) (bo : BOps B)
     (hcomm : ∀ a b, vo.add a b = vo.add b a)
     (hassoc : ∀ a b c, vo.add (vo.add a b) c = vo.add a (vo.add b c)) (hzero : ∀ a, vo.add vo.zero a = a)
     (PS : List Params) (hPS : GoodPS bo PS) (p0 : Str) (hp0 : '_' ∉ p0) (evs : List (Ev V)) (hev : evsIdOK evs)
-    (hkn : ∀ e ∈ evs, evKnown PS e) (hu : WUniq vo (St.init p0) evs)
+    (hkn : ∀ e ∈ evs, evKnown PS e) (hu : wFresh vo (St.init p0) (fun _ => true) evs = true)
     (q : Params) (hq : q ∈ PS) (hng : q.typ ≠ gaugeType)
     (hhelp : ∀ q' ∈ PS, q'.metric = q.metric → (mmapKey q').name = (mmapKey q).name →
       (mmapKey q').labels = (mmapKey q).labels → mmapKey q' = mmapKey q)
@@ -745,7 +749,7 @@ theorem natB_fmt_inj : ∀ t t' b b', natB.parse t = some b → natB.parse t' = 
 
 /-- `collect_workers_partial` applies -/
 example := collect_workers_partial intV natB [wC, wL, wS] demoPS_good "5".toList (by decide) demoWorld demoWorld_ids
-  demoWorld_known (wUniqB_sound intV _ _ (by decide)) natB_fmt_inj
+  demoWorld_known (by decide) natB_fmt_inj
 
 /-- … and on this history the collector's counter series is 2 + 4 + 3 = 9 over the files `counter_5.db` (5) and
     `counter_6.db` (4); the live gauge of the dead-and-reused pid restarted (1), the non-live one continued (21) -/
